@@ -149,6 +149,19 @@ def pairsWhere (vs : List (Option DV)) (ty : DV) (op : CmpOp) : String :=
     | _, _ => none
   ",".intercalate ps
 
+/-- the six kernels on all pairs (i, j): one char per pair, `t`/`f`/`n` (NULL) -/
+def kernelMatrix (cells : List (Option DV)) (rep : DV) : String :=
+  let one (op : CmpOp) : String :=
+    match kernelOrd rep rep with
+    | none => "none"
+    | some _ => String.ofList (cells.flatMap fun a => cells.map fun b =>
+        match sqlCmpOp op rep rep a b with
+        | some (some true) => 't'
+        | some (some false) => 'f'
+        | some none => 'n'
+        | none => '?')
+  ",".intercalate ([CmpOp.eq, .ne, .gt, .lt, .ge, .le].map one)
+
 def answer (line : String) : String :=
   match line.trimAscii.toString.splitOn " " with
   | ["cmp3", a, b, c] =>
@@ -183,13 +196,13 @@ def answer (line : String) : String :=
       let vs := vs.filterMap id
       -- a non-null representative selects the kernel arm
       match vs.find? (fun v => !v.isNull) with
-      | none => "rank:" ++ ",".intercalate ((denseRanks vs).map toString) ++ ";lt:;eq:;kernel:none"
+      | none => "rank:" ++ ",".intercalate ((denseRanks vs).map toString) ++ ";lt:;eq:;kernel:none;kern:none"
       | some rep =>
         let cells : List (Option DV) := vs.map fun v => if v.isNull then none else some v
         let hasKernel := (kernelOrd rep rep).isSome
         "rank:" ++ ",".intercalate ((denseRanks vs).map toString) ++
         ";lt:" ++ pairsWhere cells rep .lt ++ ";eq:" ++ pairsWhere cells rep .eq ++
-        ";kernel:" ++ (if hasKernel then "yes" else "none")
+        ";kernel:" ++ (if hasKernel then "yes" else "none") ++ ";kern:" ++ kernelMatrix cells rep
   | _ => "bad-request"
 
 partial def loop (h : IO.FS.Stream) : IO Unit := do
